@@ -1406,6 +1406,12 @@ class Engine:
             r = self.decide(t[1], st)
             if r is not None:
                 return not r
+        if isinstance(t, tuple) and t and t[0] == "in" and isinstance(t[1], Lin) and t[2] and all(isinstance(x, Lin) for x in t[2]):
+            rs = [self.decide(("cmp", "Eq") + tuple(sorted((t[1], x), key=repr)), st) for x in t[2]]
+            if any(r is True for r in rs):
+                return not t[3]
+            if all(r is False for r in rs):
+                return bool(t[3])
         if isinstance(t, tuple) and t and t[0] == "bool":
             rs = [self.decide(x, st) for x in t[2]]
             if t[1] == "and":
@@ -1472,9 +1478,23 @@ class Engine:
                 a, b = s, s.fork()
                 a.add_fact(t, True)
                 b.add_fact(t, False)
-                outs.extend(self.block(node.body, [a]))
-                outs.extend(self.block(node.orelse, [b]))
+                # an arm whose tests contradict each other about some integer (form == 9 ... form in (6,)) is not followed
+                fa, fb = self.feasible(a, t), self.feasible(b, t)
+                if fa or not fb:
+                    outs.extend(self.block(node.body, [a]))
+                if fb or not fa:
+                    outs.extend(self.block(node.orelse, [b]))
         return outs
+
+    def feasible(self, st, t):
+        try:
+            for at in free_symbols(t)[:4]:
+                ok, cand = possible_values(at, st.facts)
+                if not ok:
+                    return False
+        except Exception:  # noqa
+            return True
+        return True
 
     def _assigned(self, body):
         names = set()
